@@ -189,6 +189,17 @@ func init() {
 		},
 	})
 	register(&PropConfig{
+		ID:       "C08",
+		Replay:   replayC08,
+		Probes:   []string{"parser.ConstantAttribute.String#probe"},
+		Level:    "other",
+		Packages: []string{"./parser/v2"},
+		Assume: []string{
+			"partial claim: constant attributes only (the one place where the parser stores a decoded value and the formatter has to re-encode it). Not decided by this technique: that formatting preserves the meaning of every other construct, layout decisions, gofmt of embedded Go code (whole-formatter semantic preservation needs a semantics of templ)",
+			"html.UnescapeString is an uninterpreted function with two assumed facts (axiom lemmas): it inverts the replacement of every & by &amp;, and replacing a quote character by its character reference does not change what a text unescapes to",
+		},
+	})
+	register(&PropConfig{
 		ID:       "C19",
 		Replay:   replayC19,
 		Probes:   []string{"sse.Handler.Send#probe"},
